@@ -8,7 +8,7 @@ from vlib.core import Leg, call
 
 PROPERTY = "C11"
 RULE = ("for each row of the Doc 9871 field table (BDS 1,0 1,7 4,0 4,4 4,5 5,0 5,3 6,0; 34 fields): every raw value (<= 2^12, exhaustive) x status x "
-        "sign x k random contents of all other MB bits and of header/address, DF20 and DF21, three letter cases; decoder called as pyModeS.commb.<name> "
+        "sign x k random + 2 boundary (all-zero / all-one / alternating) contents of all other MB bits and of header/address, DF20 and DF21, three letter cases; decoder called as pyModeS.commb.<name> "
         "(where exported), as pyModeS.decoder.bds.bdsXX.<name>, and through the deprecated aliases; oracle: None iff status clear, else "
         "(two's-complement | unsigned) x LSB + offset, angles mod 360; the result must be identical across contexts; cap17: all single bits and random "
         "24-bit masks. non-trivial = sign bit set, raw at 0/max, or status clear with raw != 0")
@@ -40,8 +40,11 @@ def enum_fields(ctx):
                     idx += 1
                     if ctx.mine(idx):
                         rng = ctx.rng("f", ri, raw, status, sign)
+                        # contexts: random contents of every other MB bit, plus the boundary contents all-zero / all-one / alternating
+                        fixed = [0, (1 << 56) - 1, 0xAAAAAAAAAAAAAA, 0x55555555555555]
+                        mbs = [rng.getrandbits(56) for _ in range(k)] + [fixed[(raw + j) % 4] for j in range(2)]
                         yield {"row": ri, "raw": raw, "status": status, "sign": sign,
-                               "ctx": [[rng.getrandbits(56), rng.getrandbits(27), rng.getrandbits(24), rng.choice([20, 21]), rng.choice("ULM")] for _ in range(k)]}
+                               "ctx": [[m0, rng.getrandbits(27), rng.getrandbits(24), rng.choice([20, 21]), rng.choice("ULM")] for m0 in mbs]}
 
 
 def same(a, b):
